@@ -202,6 +202,8 @@ declarations:
       declarations:
       - decl: void setName(const std::string &name)
       - decl: int area(const std::string &unit, int scale = 1)
+      - decl: void accum(int *arr +dimension(..), int n)
+      - decl: enum Tint { PALE, DEEP = 4 }
     - decl: int other()
   - decl: int nsfunc(int n)
 - decl: int libfunc(int n)
@@ -210,8 +212,18 @@ declarations:
   - decl: int inblock(int n)
 """
 ENUMERATED_OPTIONS = ("F_string_len_trim",)
-LEVELS = ["lib", "ns", "cls", "blk", "fn", "fn2"]
-TAGS = {"lib": "tL_", "ns": "tN_", "cls": "tC_", "blk": "tB_", "fn": "tF_", "fn2": "tG_"}
+INTEGER_OPTIONS = {"F_assumed_rank_max": {"lib": 1, "ns": 2, "cls": 3, "blk": 4, "fn": 5, "fn2": 5, "fn3": 6, "en": 5}}   # a distinct value per level
+LEVELS = ["lib", "ns", "cls", "blk", "fn", "fn2", "fn3", "en"]
+TAGS = {"lib": "tL_", "ns": "tN_", "cls": "tC_", "blk": "tB_", "fn": "tF_", "fn2": "tG_", "fn3": "tH_", "en": "tE_"}
+# options whose value is text: a distinct template per level
+TEXT_OPTIONS = {"C_enum_member_template": {lv: "{C_prefix}{C_name_scope}%s{enum_member_name}" % TAGS[lv] for lv in TAGS},
+                "F_enum_member_template": {lv: "{F_name_scope}%s{enum_member_lower}" % TAGS[lv].lower() for lv in TAGS}}
+# the leaf declarations an option can show on (the four container levels are always explored)
+LEAF_LEVELS = {"F_assumed_rank_max": ["fn3"], "C_enum_member_template": ["en"], "F_enum_member_template": ["en"]}
+
+
+def levels_for(what):
+    return ["lib", "ns", "cls", "blk"] + LEAF_LEVELS.get(what, ["fn", "fn2"])
 
 
 def scope_nodes(d):
@@ -220,7 +232,9 @@ def scope_nodes(d):
     blk = cls["declarations"][1]
     fn = blk["declarations"][0]        # setName: has a bufferify clone
     fn2 = blk["declarations"][1]       # area: has default-argument clones
-    return {"lib": d, "ns": ns, "cls": cls, "blk": blk, "fn": fn, "fn2": fn2}
+    fn3 = blk["declarations"][2]       # accum: assumed-rank argument, one Fortran specific per rank
+    en = blk["declarations"][3]        # an enumeration: the member-name templates are options
+    return {"lib": d, "ns": ns, "cls": cls, "blk": blk, "fn": fn, "fn2": fn2, "fn3": fn3, "en": en}
 
 
 def leaves(d):
@@ -231,6 +245,8 @@ def leaves(d):
            (cls["declarations"][0], ["lib", "ns", "cls"]),
            (blk["declarations"][0], ["lib", "ns", "cls", "blk", "fn"]),
            (blk["declarations"][1], ["lib", "ns", "cls", "blk", "fn2"]),
+           (blk["declarations"][2], ["lib", "ns", "cls", "blk", "fn3"]),
+           (blk["declarations"][3], ["lib", "ns", "cls", "blk", "en"]),
            (cls["declarations"][2], ["lib", "ns", "cls"]),
            (ns["declarations"][1], ["lib", "ns"]),
            (d["declarations"][2], ["lib"]),
@@ -263,11 +279,11 @@ class ScopePipeHarness(object):
         dA = pipeline.load_yaml(SCOPE_LIB)
         dB = pipeline.load_yaml(SCOPE_LIB)
         nodes = scope_nodes(dA)
-        self.set = {}
         self.val = {}
         self.zf = {lv: z3.Bool("set_" + lv) for lv in LEVELS}
         self.zv = {lv: z3.Bool("val_" + lv) for lv in LEVELS}
-        for lv in LEVELS:
+        self.set = {lv: False for lv in LEVELS}
+        for lv in levels_for(self.what):
             here = e.branch(self.zf[lv])
             self.set[lv] = here
             if here:
@@ -292,6 +308,10 @@ class ScopePipeHarness(object):
         return rA, rB
 
     def value(self, e, lv):
+        if self.what in INTEGER_OPTIONS:
+            return INTEGER_OPTIONS[self.what][lv]
+        if self.what in TEXT_OPTIONS:
+            return TEXT_OPTIONS[self.what][lv]
         if self.what in ENUMERATED_OPTIONS:
             # Shroud tests this option with `is False`: a proxy cannot stand for it, so the engine picks
             # the concrete value (one path per value, still decided by the solver's enumeration)
@@ -335,6 +355,14 @@ def compare_runs(rA, rB, skip=(".json",)):
     return None
 
 
+def fixed_value(field, lv, boolean):
+    if field in INTEGER_OPTIONS:
+        return INTEGER_OPTIONS[field][lv]
+    if field in TEXT_OPTIONS:
+        return TEXT_OPTIONS[field][lv]
+    return boolean
+
+
 def confirm_scoping(w):
     dA = pipeline.load_yaml(SCOPE_LIB)
     dB = pipeline.load_yaml(SCOPE_LIB)
@@ -344,7 +372,7 @@ def confirm_scoping(w):
             if w["field"] == "tag":
                 nodes[lv].setdefault("format", {})["tag"] = TAGS[lv]
             else:
-                nodes[lv].setdefault("options", {})[w["field"]] = w["value"][lv]
+                nodes[lv].setdefault("options", {})[w["field"]] = fixed_value(w["field"], lv, w["value"][lv])
     for (leafA, chain), (leafB, _) in zip(leaves(dA), leaves(dB)):
         near = None
         for lv in chain:
@@ -354,7 +382,7 @@ def confirm_scoping(w):
             if w["field"] == "tag":
                 leafB.setdefault("format", {})["tag"] = TAGS[near]
             else:
-                leafB.setdefault("options", {})[w["field"]] = w["value"][near]
+                leafB.setdefault("options", {})[w["field"]] = fixed_value(w["field"], near, w["value"][near])
     flatten_blocks(dB)
     try:
         return compare_runs(pipeline.run(dA, deep=False), pipeline.run(dB, deep=False))
@@ -540,6 +568,10 @@ class CmdHarness(object):
             dall.setdefault("options", {})[name] = val
             if e.branch(z):
                 self.on_cmd[name] = True
+                if isinstance(val, bool):
+                    # both spellings main.py accepts: true/false and True/False
+                    txt = str(val) if e.branch(z3.Bool("capital_" + name)) else str(val).lower()
+                    self.on_cmd[name] = txt
                 cmd.append("%s=%s" % (name, txt))
             else:
                 self.on_cmd[name] = False
@@ -584,6 +616,8 @@ def confirm_cmd(w):
     for (name, val, txt) in CMD_OPTIONS:
         dall.setdefault("options", {})[name] = val
         if w["on_command_line"].get(name):
+            if isinstance(w["on_command_line"][name], str):
+                txt = w["on_command_line"][name]
             cmd.append("%s=%s" % (name, txt))
         else:
             d.setdefault("options", {})[name] = val
@@ -761,7 +795,7 @@ def main():
         rep.inconc("identity test on a value this harness makes symbolic: " + ln)
     specs = [("harness.C14", "make_scope", {})]
     labels = ["util.Scope laws"]
-    for what in ("tag", "F_force_wrapper", "C_force_wrapper", "F_string_len_trim"):
+    for what in ("tag", "F_force_wrapper", "C_force_wrapper", "F_string_len_trim", "F_assumed_rank_max", "C_enum_member_template", "F_enum_member_template"):
         specs.append(("harness.C14", "make_scope_pipe", dict(what=what)))
         labels.append("pipeline scoping of %s" % what)
     for i in range(len(ATTR_SHAPES)):
@@ -823,7 +857,7 @@ def main():
                               "Library/Namespace/Class/Block/FunctionNode.__init__ and default_format; FunctionNode.clone",
                               "FunctionNode.__init__ attrs/fattrs merge; declast.Parser.attribute; generate.VerifyAttrs",
                               "shroud.main.main_with_args (--option, --language), create_wrapper"],
-        "bounds": {"scope_chain_depth": 4, "pipeline_levels": LEVELS, "scoped_fields": ["format field tag (referenced from C_name_template)", "F_force_wrapper", "C_force_wrapper", "F_string_len_trim"],
+        "bounds": {"scope_chain_depth": 4, "pipeline_levels": LEVELS, "scoped_fields": ["format field tag (referenced from C_name_template)", "F_force_wrapper", "C_force_wrapper", "F_string_len_trim", "F_assumed_rank_max (a distinct integer per level)", "C_enum_member_template / F_enum_member_template (a distinct template per level)"],
                    "attribute_shapes": [s["bare"] for s in ATTR_SHAPES], "command_line_options": [o[0] for o in CMD_OPTIONS]},
         "solver": {"name": "z3 " + z3.get_version_string(), "queries": total.stats.queries, "solver_s": round(total.stats.solver_s, 2)},
         "reachability_twin_ok": twin_ok,
